@@ -11,6 +11,8 @@ CFG = cfg('C02', refine=['Refine_sig'], extract='Ex_Sig', driver='sig',
 
 TEXT = ('Rocq theorems (Props/C02.v, closed): the hash input PGPy builds equals the separately transcribed RFC 4880 5.2.4 function for every '
         'signature type and every subject (incl. text canonicalisation = split/strip CR/join for all octet strings, trailer, 0x99 / 0xB4 / 0xD1 framing). '
+        'A signer model composed with the parser and verifier models (sign_body_parses, sign_export_parse_verify), DER / EdDSA value encodings, and what a '
+        'signature on a literal MESSAGE covers (Model/SignedMsg.v: the literal\'s octets then the trailer; format octet, file name, time are not signed). '
         'Tie: the extracted Spec function + primitive oracle is the independent verifier of every PGPy-made signature and the independent signer whose '
         'signatures PGPy must accept; PGPSignature.hashdata is compared octet for octet with the model on every case.',
         'DESIGN.md 5 C02',
